@@ -381,15 +381,20 @@ def job_misc():
         return not _verdict(fn)
 
     def unfitted(est):
-        return not any(k.endswith("_") and not k.startswith("__") for k in vars(est))
+        # no fitted MODEL: the input description scikit-learn's validate_data records (n_features_in_, feature_names_in_) is not one
+        return not any(k.endswith("_") and not k.startswith("__") and k not in ("n_features_in_", "feature_names_in_") for k in vars(est))
     # inconsistent combinations
     k = tree.Kauri(min_samples_leaf=2, min_samples_split=3)
-    checks.append(("Kauri: 2*min_samples_leaf > min_samples_split rejected", rejects(lambda: k.fit(X)) and not hasattr(k, "tree_") or rejects(lambda: tree.Kauri(min_samples_leaf=2, min_samples_split=3).fit(X))))
+    checks.append(("Kauri: 2*min_samples_leaf > min_samples_split rejected", rejects(lambda: k.fit(X))))
+    checks.append(("Kauri: the rejected estimator is left without fitted attributes (no tree_, labels_, ...)", unfitted(k)))
+    for leaf, split in [(3, 4), (3, 5), (2, 2)]:
+        k2 = tree.Kauri(min_samples_leaf=leaf, min_samples_split=split)
+        checks.append((f"Kauri(min_samples_leaf={leaf}, min_samples_split={split}) rejected and left unfitted", rejects(lambda k2=k2: k2.fit(X)) and unfitted(k2)))
     checks.append(("Kauri: 2*min_samples_leaf == min_samples_split accepted", _verdict(lambda: tree.Kauri(min_samples_leaf=2, min_samples_split=4).fit(X))))
     for L, want in [(2, False), (3, True), (4, False)]:
         d = dg.Douglas(n_clusters=2, feature_mask=np.array([True] * L), max_iter=1, gemini="mi")
         ok = _verdict(lambda: d.fit(X))
-        checks.append((f"Douglas: feature_mask of length {L} for 3 features {'accepted' if want else 'rejected'}", ok == want and (want or not hasattr(d, "labels_"))))
+        checks.append((f"Douglas: feature_mask of length {L} for 3 features {'accepted' if want else 'rejected'}", ok == want and (want or unfitted(d))))
     for name in gu.AVAILABLE_GEMINIS:
         checks.append((f"registry name {name!r} accepted", _verdict(lambda name=name: gu._str_to_gemini(name))))
     near = ["kl", "mmd", "MI", "", "wasserstein"] + [f"{a}{sep}{b}" for a in ("mi", "kl", "tv", "mmd", "chi2", "hellinger", "wasserstein") for sep in ("_", "-", "") for b in ("ova", "ovo", "", "ovr")]
